@@ -7,6 +7,8 @@
  RF13-progress  every bound update of the bisection moves strictly
  RF3-key     lookup keys (instants, 64 bit) are never narrowed to the 32-bit key type without a range clamp
  RF1-idx     an index into the leap tables is only used as subscript/comparison, never as a number of seconds
+ RF10-overlay  the leap correction shares the upper bits of the duration's value slot (checked against the record layout): a
+             producer that stores the slot and marks the duration leap-aware stores the correction afterwards on every path
  RF11-next   `tbl[i + 1]` is read only under `i + 1 < nleaps`
 """
 import os
@@ -363,7 +365,127 @@ def check_return_bound(fn, R):
                           % (lower["n"], expr_text(rv)), n)
 
 
+def check_overlay(P, R):
+    """RF10-overlay: in the duration record the leap correction `corr` shares the upper bits of the value slot `dv` (record layout).
+    Whoever stores the whole slot and marks the duration leap-aware must store the correction afterwards on every path -- what is
+    left in it otherwise is the upper part of the value, i.e. the sign extension -1 for every negative difference."""
+    from core import walk, member_path, norm_cond, expr_text, kids, const_of, strip
+    rule = "RF10-overlay"
+    tu = P.tu("libdut_a-dt-core.o")
+    # the overlap itself, from the record layout
+    rec = tu.record("dt_dtdur_s")
+    if rec is None:
+        raise AnalysisBroken("%s: record dt_dtdur_s not found" % rule)
+    allm = _flat(tu, rec)
+    flat = {nm: (off, w) for nm, off, w in allm if nm in ("corr", "soft")}
+    # the value slot: the widest member called dv (the sandwich's date part has a dv of its own)
+    dvs = sorted(((w, off) for nm, off, w in allm if nm == "dv"), reverse=True)
+    if not dvs or not all(k in flat for k in ("corr", "soft")):
+        raise AnalysisBroken("%s: members dv / soft / corr of dt_dtdur_s not found in the layout" % rule)
+    flat["dv"] = (dvs[0][1], dvs[0][0])
+    (dvo, dvw), (co, cw), (so, sw) = flat["dv"], flat["corr"], flat["soft"]
+    if not (dvo <= co and co + cw <= dvo + dvw and dvo <= so and so + sw <= dvo + dvw and (so + sw <= co or co + cw <= so)):
+        raise AnalysisBroken("%s: corr / soft no longer overlay dv (%s)" % (rule, (flat["dv"], flat["soft"], flat["corr"])))
+    R.ob(rule, "layout: dv [%d,+%d) holds soft [%d,+%d) and corr [%d,+%d)" % (dvo, dvw, so, sw, co, cw), True)
+    n = 0
+    for fn in (tu.functions.values() if isinstance(tu.functions, dict) else tu.functions):
+        if getattr(fn, "body", None) is None:
+            continue
+        marks = [x for x in fn.walk() if x.get("k") == "BinaryOperator" and x.get("op") == "=" and
+                 strip(x["c"][0]).get("k") == "MemberExpr" and member_path(x["c"][0])[1][-1:] == ["tai"] and const_of(x["c"][1]) == 1]
+        if not marks:
+            continue
+        # a producer that stores the correction on some path (contradiction rule: then it must on all); a parser that only marks
+        # a duration leap-aware hands it to the adders, which never read the correction
+        if not any(x.get("k") == "BinaryOperator" and x.get("op") == "=" and strip(x["c"][0]).get("k") == "MemberExpr" and
+                   member_path(x["c"][0])[1][-1:] == ["corr"] for x in fn.walk()):
+            continue
+        R.saw(fn)
+        for mk in marks:
+            n += 1
+            base = member_path(mk["c"][0])[0]
+            bd = base.get("d") if base is not None else None
+
+            def writes(member, node=None):
+                return [x for x in (walk(node) if node is not None else fn.walk()) if x.get("k") == "BinaryOperator" and x.get("op") == "=" and
+                        strip(x["c"][0]).get("k") == "MemberExpr" and member_path(x["c"][0])[1][-1:] == [member] and
+                        member_path(x["c"][0])[0] is not None and member_path(x["c"][0])[0].get("d") == bd]
+            slot = writes("dv")
+            cw_ = writes("corr")
+            site = "%s: duration marked leap-aware at %s" % (fn.name, fn.where(mk))
+            if not slot:
+                continue
+            if not cw_:
+                R.finding(rule, fn, site, "the value slot is stored and the duration is marked leap-aware, but the correction field that shares "
+                          "its upper bits is never stored", mk)
+                continue
+            def must(st):
+                if st is None:
+                    return False
+                k = st.get("k")
+                if k == "BinaryOperator" and st.get("op") == "=":
+                    return any(st is w for w in cw_)
+                if k in ("CompoundStmt",):
+                    return any(must(c) for c in kids(st))
+                if k == "IfStmt":
+                    return len(st["c"]) > 2 and st["c"][2] is not None and must(st["c"][1]) and must(st["c"][2])
+                return False
+            # the outermost statement around the stores through which every path stores the correction
+            region = None
+            anc = cw_[0]
+            while anc is not None and anc.get("k") not in ("FunctionDecl",):
+                if must(anc):
+                    region = anc
+                elif region is not None:
+                    break
+                anc = fn.parent(anc)
+            blk = region
+            if region is None:
+                ok, why = False, "no statement stores the correction on all of its paths"
+            else:
+                g_mark = [norm_cond(c_, pol) for c_, pol in _if_guards(fn, mk)]
+                g_reg = [norm_cond(c_, pol) for c_, pol in _if_guards(fn, region)]
+                same = all(g in g_mark for g in g_reg)
+                after = region["i"] > max(s_["i"] for s_ in slot)
+                ok = same and after
+                why = "runs whenever the duration is marked leap-aware: %s (its guards %s, the mark's %s), after the slot store: %s" % (same, g_reg, g_mark, after)
+            if ok:
+                R.ob(rule, "%s: the correction is stored on every path after the value slot" % site, True)
+            else:
+                R.finding(rule, fn, site, "after the whole value slot has been stored, the correction field sharing its upper bits must be stored on "
+                          "every path of a leap-aware duration (%s); otherwise it holds the top of the value: -1 for every negative difference that "
+                          "crosses no leap second" % why, blk if blk is not None else mk)
+    R.floor(rule, "producers of leap-aware durations", n, 1)
+
+
+def _if_guards(fn, node):
+    """(condition, polarity) of every enclosing if-branch"""
+    out = []
+    cur = node
+    while cur is not None:
+        par = fn.parent(cur)
+        if par is not None and par.get("k") == "IfStmt":
+            if len(par["c"]) > 1 and par["c"][1] is cur:
+                out.append((par["c"][0], True))
+            elif len(par["c"]) > 2 and par["c"][2] is cur:
+                out.append((par["c"][0], False))
+        cur = par
+    return out
+
+
+def _flat(tu, rec):
+    """(member name, bit offset, bit width) of all members, anonymous records flattened"""
+    out = []
+    for path, off, w, _sg in tu.flatten_record(rec):
+        out.append((path.split(".")[-1], off, w))
+    return out
+
+
 def check(P, R, tier):
+    check_overlay(P, R)
+    # TAI / GPS labelled stamps go through the zone code: the offset (the leap count) is a function of the UTC instant
+    import c12
+    c12.check_fixpoint(P, R)
     check_table(P, R)
     tu = P.tu("leaps.c")
     nf = 0
